@@ -1,27 +1,310 @@
-//! C11 — not built yet (stub so that the binary links; `./check C11` reports INFRA until replaced).
+//! C11 — top-level order is irrelevant; globals are initialised before use.
+//! Metamorphic over permutations of the top-level items + differential against the reference interpreter,
+//! plus planted dependency cycles that must be rejected in every order.
+use crate::common::*;
 use arbitrary::Unstructured;
-use vcore::{Check, Labels, Plan, Tier, Verdict};
+use serde::{Deserialize, Serialize};
+use syltmodel::ast::*;
+use syltmodel::gen::{Gen, GenCfg};
+use syltmodel::print::Plan as SurfacePlan;
+use vcore::luarun::{run_lua, LuaOutcome, Terminal};
+use vcore::{compile, Check, Labels, Outcome, Plan, Project, Stats, Step, Tape, Tier, Verdict};
 
-pub struct Stub;
-pub const CHECK: Stub = Stub;
-pub fn plan(_t: Tier) -> Plan {
-    Plan::new(1, 16)
+pub struct C11;
+pub const CHECK: C11 = C11;
+pub fn plan(t: Tier) -> Plan {
+    Plan::new(t.pick(2_500, 40_000), t.pick(3400, 4600))
 }
-impl Check for Stub {
-    type Case = u8;
+
+#[derive(Clone, Serialize, Deserialize)]
+pub struct Case {
+    pub prog: Program,
+    /// permutations of the top-level items (blobs, enums, globals in printer order)
+    pub orders: Vec<Vec<usize>>,
+    /// a planted cyclic pair of globals: source lines appended to the item list
+    pub cycle: Option<Vec<String>>,
+    #[serde(default)]
+    pub source: String,
+}
+
+pub fn toplevel_cfg(thorough: bool) -> GenCfg {
+    let mut cfg = GenCfg::core(thorough);
+    cfg.toplevel_calls = true;
+    cfg.max_decls = if thorough { 14 } else { 10 };
+    cfg.decl_budget = 35;
+    cfg.max_stmts = 6;
+    cfg.scenario_weight = 0;
+    cfg
+}
+
+fn n_items(p: &Program) -> usize {
+    p.blobs.len() + p.enums.len() + p.globals.len()
+}
+
+fn permutation(t: &mut Tape, n: usize) -> Vec<usize> {
+    let mut v: Vec<usize> = (0..n).collect();
+    for i in (1..n).rev() {
+        let j = t.below(i + 1);
+        v.swap(i, j);
+    }
+    v
+}
+
+const CYCLES: &[&[&str]] = &[
+    &["zca :: zcb + 1", "zcb :: zca + 1"],
+    &["zca :: zcf()", "zcf :: fn -> int do\n    zca\nend"],
+    &["zca := zcb", "zcb := zcc", "zcc := zca"],
+    &["zca :: (fn -> int do\n    zcb\nend)()", "zcb :: zca"],
+];
+
+fn render_with(case: &Case, order: &[usize]) -> String {
+    // the planted cycle lines are extra items placed according to extra indices in `order`
+    let n = n_items(&case.prog);
+    let mut plan = SurfacePlan::default();
+    plan.order = Some(order.iter().copied().filter(|i| *i < n).collect());
+    let printed = render(&case.prog, &plan);
+    match &case.cycle {
+        None => printed.text,
+        Some(lines) => {
+            // insert every cycle item before the printed item that follows it in `order`
+            let mut chunks: Vec<String> = Vec::new();
+            let text_lines: Vec<&str> = printed.text.lines().collect();
+            let mut item_iter = printed.item_lines.iter();
+            for idx in order {
+                if *idx < n {
+                    if let Some((a, b)) = item_iter.next() {
+                        chunks.push(text_lines[a - 1..*b].join("\n"));
+                    }
+                } else if let Some(l) = lines.get(idx - n) {
+                    chunks.push(l.clone());
+                }
+            }
+            let mut s = chunks.join("\n");
+            s.push('\n');
+            s
+        }
+    }
+}
+
+impl Check for C11 {
+    type Case = Case;
     fn id(&self) -> &'static str {
         "C11"
     }
-    fn generate(&self, _u: &mut Unstructured, _tier: Tier) -> Option<u8> {
-        None
+    fn generate(&self, u: &mut Unstructured, tier: Tier) -> Option<Case> {
+        let mut t = Tape::new(u);
+        let prog = Gen::new(&mut t, toplevel_cfg(tier == Tier::Thorough)).program();
+        let cycle: Option<Vec<String>> = if t.chance(1, 6) { Some(t.pick(CYCLES).iter().map(|s| s.to_string()).collect()) } else { None };
+        let n = n_items(&prog) + cycle.as_ref().map(|c| c.len()).unwrap_or(0);
+        let mut orders: Vec<Vec<usize>> = Vec::new();
+        orders.push((0..n).collect());
+        orders.push((0..n).rev().collect());
+        let r = t.below(n.max(1));
+        orders.push((0..n).map(|i| (i + r) % n.max(1)).collect());
+        for _ in 0..tier.pick(3, 5) {
+            orders.push(permutation(&mut t, n));
+        }
+        let mut case = Case { prog, orders, cycle, source: String::new() };
+        case.source = render_with(&case, &case.orders[0]);
+        Some(case)
     }
-    fn evaluate(&self, _case: &u8, _labels: &mut Labels) -> Verdict {
-        Verdict::Discard("stub".into())
+
+    fn evaluate(&self, case: &Case, labels: &mut Labels) -> Verdict {
+        let n = n_items(&case.prog);
+        // cyclic variants: rejected in every order
+        if case.cycle.is_some() {
+            labels.add("planted-cycle");
+            let mut accepted_in: Vec<usize> = Vec::new();
+            let mut first_msg = String::new();
+            for (k, order) in case.orders.iter().enumerate() {
+                let src = render_with(case, order);
+                match compile(&Project::single(src)) {
+                    Outcome::Accepted(_) => accepted_in.push(k),
+                    Outcome::Rejected { errors, bytes_written } => {
+                        if bytes_written > 0 {
+                            return Verdict::Violation { signature: "C11/wrote-lua-on-error".into(), detail: "bytes written although rejected".into() };
+                        }
+                        if first_msg.is_empty() {
+                            first_msg = errors[0].message.clone();
+                        }
+                    }
+                    Outcome::Panicked { .. } => return Verdict::Discard("compiler-panicked".into()),
+                }
+            }
+            if !accepted_in.is_empty() {
+                return Verdict::Violation {
+                    signature: "C11/cycle-accepted".into(),
+                    detail: format!(
+                        "a program whose global initialisers depend on each other cyclically is accepted in {} of {} orders\n--- one accepted order ---\n{}",
+                        accepted_in.len(),
+                        case.orders.len(),
+                        render_with(case, &case.orders[accepted_in[0]])
+                    ),
+                };
+            }
+            if !first_msg.contains("ependency") {
+                labels.add("cycle-rejected-for-other-reason");
+            }
+            return Verdict::Pass { nontrivial: true };
+        }
+        let r = reference(&case.prog, false);
+        if r.ambiguous {
+            return Verdict::Discard("order-ambiguous".into());
+        }
+        if r.nan_seen || r.unprintable_seen {
+            return Verdict::Discard("nan-or-unprintable".into());
+        }
+        let base_printed = render(&case.prog, &SurfacePlan::default());
+        let expected = match expected_trace(&r, &base_printed) {
+            Ok(t) => t,
+            Err(e) => {
+                if e.starts_with("ref-dynerror") {
+                    labels.add("ref-dynerror");
+                }
+                return Verdict::Discard(e.split(':').next().unwrap_or("ref").chars().take(40).collect());
+            }
+        };
+        if matches!(expected.terminal, Terminal::Unreachable(_)) {
+            // the line number of `<!>` moves with the permutation
+            return Verdict::Discard("unreachable-reached".into());
+        }
+        let mut accepted = 0;
+        let mut rejected: Vec<(usize, String)> = Vec::new();
+        let mut inverted_edges = false;
+        for (k, order) in case.orders.iter().enumerate() {
+            let src = render_with(case, order);
+            // does this permutation put some global after a global that is printed later in the base order?
+            if k > 0 && order.iter().filter(|i| **i < n).zip(order.iter().filter(|i| **i < n).skip(1)).any(|(a, b)| a > b) {
+                inverted_edges = true;
+            }
+            match compile(&Project::single(src.clone())) {
+                Outcome::Accepted(lua) => {
+                    accepted += 1;
+                    match run_lua(&lua, r.steps * 60 + 400_000) {
+                        LuaOutcome::LoadError { class, msg, .. } => {
+                            return Verdict::Violation {
+                                signature: format!("C11/lua-load/{}", class),
+                                detail: format!("order #{}: emitted chunk does not load: {}\n--- source ---\n{}", k, msg, src),
+                            };
+                        }
+                        LuaOutcome::Ran(t) => {
+                            if let Terminal::OutOfBudget(_) = t.terminal {
+                                return Verdict::Discard("lua-budget".into());
+                            }
+                            if let Some((kind, what)) = diff_traces(&expected, &t) {
+                                return Verdict::Violation {
+                                    signature: format!("C11/trace/{}", kind),
+                                    detail: format!(
+                                        "order #{} of the top-level definitions behaves differently from the source's meaning: {}\n--- this order ---\n{}\n--- base order ---\n{}",
+                                        k, what, src, base_printed.text
+                                    ),
+                                };
+                            }
+                        }
+                    }
+                }
+                Outcome::Rejected { errors, bytes_written } => {
+                    if bytes_written > 0 {
+                        return Verdict::Violation { signature: "C11/wrote-lua-on-error".into(), detail: "bytes written although rejected".into() };
+                    }
+                    rejected.push((k, format!("{}:{}", errors[0].kind, message_class(&errors[0].message))));
+                }
+                Outcome::Panicked { .. } => return Verdict::Discard("compiler-panicked".into()),
+            }
+        }
+        if accepted > 0 && !rejected.is_empty() {
+            let (k, why) = &rejected[0];
+            return Verdict::Violation {
+                signature: format!("C11/acceptance-depends-on-order/{}", why),
+                detail: format!(
+                    "{} of {} orders are accepted, order #{} is rejected ({})\n--- rejected order ---\n{}\n--- base order ---\n{}",
+                    accepted,
+                    case.orders.len(),
+                    k,
+                    why,
+                    render_with(case, &case.orders[*k]),
+                    base_printed.text
+                ),
+            };
+        }
+        if accepted == 0 {
+            labels.add(format!("all-rejected:{}", rejected[0].1));
+            return Verdict::Discard("rejected-in-every-order".into());
+        }
+        labels.add("accepted");
+        if r.cov[syltmodel::interp::Cov::GlobalWrite as usize] > 0 {
+            labels.add("global-write");
+        }
+        let has_call_init = case.prog.globals.iter().any(|g| matches!(g.value.kind, EKind::Call(..)));
+        if has_call_init {
+            labels.add("call-initialiser");
+        }
+        Verdict::Pass { nontrivial: inverted_edges && case.prog.globals.len() >= 4 }
+    }
+
+    fn simplify_at(&self, case: &Case, idx: usize) -> Step<Case> {
+        if case.cycle.is_some() {
+            return Step::End;
+        }
+        let pc = ProgCase { prog: case.prog.clone(), plan: SurfacePlan::default(), source: String::new() };
+        match shrink_step(&pc, idx) {
+            Step::End => Step::End,
+            Step::Skip => Step::Skip,
+            Step::Candidate(p) => {
+                // removing a global shifts item indices: drop the index from every order
+                let old_n = n_items(&case.prog);
+                let new_n = n_items(&p.prog);
+                let orders: Vec<Vec<usize>> = if new_n == old_n {
+                    case.orders.clone()
+                } else {
+                    // a global was removed: rebuild orders by relative rank
+                    case.orders
+                        .iter()
+                        .map(|o| {
+                            let mut keep: Vec<usize> = o.iter().copied().filter(|i| *i < new_n).collect();
+                            for i in 0..new_n {
+                                if !keep.contains(&i) {
+                                    keep.push(i);
+                                }
+                            }
+                            keep
+                        })
+                        .collect()
+                };
+                let mut c = Case { prog: p.prog, orders, cycle: None, source: String::new() };
+                c.source = render_with(&c, &c.orders[0]);
+                Step::Candidate(c)
+            }
+        }
+    }
+    fn sample(&self, case: &Case) -> serde_json::Value {
+        vcore::truncate_value(
+            serde_json::json!({"base_order": render_with(case, &case.orders[0]), "a_permutation": case.orders.last(), "cycle": case.cycle}),
+            2000,
+        )
     }
     fn rule(&self) -> String {
-        "stub".into()
+        "cases: a random well-typed program of the top-level profile (constants, mutable globals, pure and impure global functions, \
+         blobs, enums; initialisers built from earlier constants or calling earlier functions; at most one initialiser with effects \
+         - it may print and assign mutable globals - so that the documented semantics make the behaviour order-independent) rendered \
+         in the identity order, the reverse, a rotation and 3 (quick) / 5 (thorough) random permutations of all top-level items \
+         (types included); 1 case in 6 additionally carries a planted dependency cycle (value<->value, value->function->value, a \
+         3-cycle, through an immediately applied closure). Oracle: every order is accepted and its mini-Lua trace equals the reference \
+         interpreter's trace of the program (or every order is rejected); a planted cycle is rejected in every order with zero bytes \
+         written. non-trivial = a permutation inverts the textual order of at least two globals and there are >= 4 globals, or a cyclic \
+         variant; distinct by case hash"
+            .into()
     }
-    fn health(&self, _s: &vcore::Stats) -> Result<(), String> {
-        Err("check not built yet".into())
+    fn health(&self, s: &Stats) -> Result<(), String> {
+        if s.evaluations < 200 {
+            return Ok(());
+        }
+        if (s.label("accepted") as f64) < 0.5 * s.evaluations as f64 {
+            return Err(format!("only {} of {} programs are accepted in every order", s.label("accepted"), s.evaluations));
+        }
+        if s.label("call-initialiser") * 5 < s.evaluations || s.label("global-write") * 10 < s.evaluations {
+            return Err("initialisers that call functions / writes to globals are rare".into());
+        }
+        Ok(())
     }
 }
